@@ -143,20 +143,100 @@ pub open spec fn bdd_matoms_ok(defs: Defs, b: Bdd) -> bool
 struct ExMappingStrKey(MappingStrKey);
 pub assume_specification[ <MappingStrKey as Clone>::clone ](x: &MappingStrKey) -> (r: MappingStrKey)
     ensures r == *x;
-// R5 (contract-only, ASSUMED; bounded stand-in: families mapidx / idx): the component types of an object atom that
-// a string key set selects. It iterates a BTreeMap and uses a let-chain with else-less `if` over iterator adapters.
-// Modelled as an uninterpreted function of the atom and the key set; the types it returns are component types of
-// the atom, hence as well-formed as the atom.
-spec fn applicable(atomic: MappingAtomicType, key: MappingStrKey) -> Seq<Rc<SemType>>;
-pub uninterp spec fn matom_wf(atomic: MappingAtomicType) -> bool;
-#[verifier::external_body]
-fn mapping_atomic_applicable_member_types_inner(atomic: Rc<MappingAtomicType>, key: MappingStrKey) -> (r: Result<Vec<Rc<SemType>>>)
-    ensures r is Ok ==> r->Ok_0@ == applicable(*atomic, key),
-            matom_wf(*atomic) ==> r is Ok && forall|i: int| 0 <= i < r->Ok_0@.len() ==> swf(#[trigger] r->Ok_0@[i]) && sin_val(r->Ok_0@[i]),
-{ unimplemented!() }
+// ---- the component types of an object atom that a string key set selects (`mapping_atomic_applicable_member_types_inner`,
+// extracted and proved): a declared property takes part when the key set selects its key; the index signature's value
+// type takes part when the signature is over all strings and the key set selects a key the atom does not declare
+pub open spec fn listed(values: Seq<String>, k: String) -> bool { exists|j: int| 0 <= j < values.len() && #[trigger] values[j] == k }
+spec fn key_sel(key: MappingStrKey, k: String) -> bool {
+    match key { MappingStrKey::Str { allowed, values } => listed(values@, k) == allowed, MappingStrKey::True => true }
+}
+pub open spec fn names_undeclared(vs: Map<String, Rc<SemType>>, values: Seq<String>) -> bool {
+    exists|j: int| 0 <= j < values.len() && !vs.contains_key(#[trigger] values[j])
+}
+spec fn sig_sel(atomic: MappingAtomicType, key: MappingStrKey) -> bool {
+    match atomic.indexed_properties {
+        Some(ip) => ip.key.all == 8u32 && (match key {
+            MappingStrKey::Str { allowed, values } => !allowed || names_undeclared(atomic.vs@, values@),
+            MappingStrKey::True => true,
+        }),
+        None => false,
+    }
+}
+spec fn decl_sel_mem(vs: Map<String, Rc<SemType>>, key: MappingStrKey, v: Val) -> bool {
+    exists|k: String| #[trigger] vs.contains_key(k) && key_sel(key, k) && smem(vs[k], v)
+}
+spec fn sel_mem(atomic: MappingAtomicType, key: MappingStrKey, v: Val) -> bool {
+    decl_sel_mem(atomic.vs@, key, v) || (sig_sel(atomic, key) && smem(atomic.indexed_properties->0.value, v))
+}
+pub open spec fn matom_wf(atomic: MappingAtomicType) -> bool {
+    &&& forall|k: String| atomic.vs@.contains_key(k) ==> swf(#[trigger] atomic.vs@[k]) && sin_val(atomic.vs@[k])
+    &&& match atomic.indexed_properties { Some(ip) => swf(ip.value) && sin_val(ip.value), None => true }
+}
+// the declared properties among the first n entries of the map's iteration that the key set selects
+spec fn decl_upto(s: Seq<(&String, &Rc<SemType>)>, n: int, key: MappingStrKey, v: Val) -> bool {
+    exists|j: int| 0 <= j < n && j < s.len() && key_sel(key, *(#[trigger] s[j]).0) && smem(*s[j].1, v)
+}
+proof fn lemma_decl_upto_step(s: Seq<(&String, &Rc<SemType>)>, n: int, key: MappingStrKey, v: Val)
+    requires 0 <= n < s.len()
+    ensures decl_upto(s, n + 1, key, v) == (decl_upto(s, n, key, v) || (key_sel(key, *s[n].0) && smem(*s[n].1, v)))
+{
+    if decl_upto(s, n + 1, key, v) {
+        let j = choose|j: int| 0 <= j < n + 1 && j < s.len() && key_sel(key, *(#[trigger] s[j]).0) && smem(*s[j].1, v);
+        if j < n { assert(decl_upto(s, n, key, v)); }
+    }
+    if decl_upto(s, n, key, v) {
+        let j = choose|j: int| 0 <= j < n && j < s.len() && key_sel(key, *(#[trigger] s[j]).0) && smem(*s[j].1, v);
+        assert(0 <= j < n + 1 && key_sel(key, *s[j].0) && smem(*s[j].1, v));
+    }
+    if key_sel(key, *s[n].0) && smem(*s[n].1, v) { assert(0 <= n < n + 1 && key_sel(key, *(s[n]).0)); }
+}
+proof fn lemma_decl_full(s: Seq<(&String, &Rc<SemType>)>, vs: Map<String, Rc<SemType>>, n: int, key: MappingStrKey, v: Val)
+    requires kv_seq_ok(s, vs), n == s.len()
+    ensures decl_upto(s, n, key, v) == decl_sel_mem(vs, key, v)
+{
+    if decl_upto(s, n, key, v) {
+        let j = choose|j: int| 0 <= j < n && j < s.len() && key_sel(key, *(#[trigger] s[j]).0) && smem(*s[j].1, v);
+        assert(vs.contains_key(*s[j].0) && vs[*s[j].0] == *s[j].1);
+    }
+    if decl_sel_mem(vs, key, v) {
+        let k = choose|k: String| #[trigger] vs.contains_key(k) && key_sel(key, k) && smem(vs[k], v);
+        let i = choose|i: int| 0 <= i < s.len() && *s[i].0 == k;
+        assert(vs[*s[i].0] == *s[i].1);
+        assert(key_sel(key, *(s[i]).0) && smem(*s[i].1, v));
+    }
+}
+proof fn lemma_copied_any(vals: Seq<Rc<SemType>>, s: Seq<(&String, &Rc<SemType>)>, key: MappingStrKey, v: Val)
+    requires key is True, vals.len() == s.len(), forall|j: int| 0 <= j < s.len() ==> vals[j] == *(#[trigger] s[j]).1
+    ensures any_upto(vals, vals.len() as int, v) == decl_upto(s, s.len() as int, key, v)
+{
+    if any_upto(vals, vals.len() as int, v) {
+        let i = choose|i: int| 0 <= i < vals.len() && i < vals.len() && smem(#[trigger] vals[i], v);
+        assert(vals[i] == *(s[i]).1);
+        assert(key_sel(key, *(s[i]).0) && smem(*s[i].1, v));
+    }
+    if decl_upto(s, s.len() as int, key, v) {
+        let j = choose|j: int| 0 <= j < s.len() && j < s.len() && key_sel(key, *(#[trigger] s[j]).0) && smem(*s[j].1, v);
+        assert(vals[j] == *(s[j]).1);
+    }
+}
+pub broadcast proof fn lemma_any_push(p: Seq<Rc<SemType>>, t: Rc<SemType>, n: int, v: Val)
+    requires n == p.len() + 1
+    ensures #[trigger] any_upto(p.push(t), n, v) == (any_upto(p, p.len() as int, v) || smem(t, v))
+{
+    let q = p.push(t);
+    if any_upto(q, n, v) {
+        let i = choose|i: int| 0 <= i < n && i < q.len() && smem(#[trigger] q[i], v);
+        if i < p.len() { assert(q[i] == p[i]); assert(any_upto(p, p.len() as int, v)); }
+    }
+    if any_upto(p, p.len() as int, v) {
+        let i = choose|i: int| 0 <= i < p.len() && i < p.len() && smem(#[trigger] p[i], v);
+        assert(q[i] == p[i]);
+    }
+    if smem(t, v) { assert(q[p.len() as int] == t); }
+}
 // value-level reading of the walk over an object diagram, as for lists
 spec fn matom_member(defs: Defs, a: Atom, key: MappingStrKey, v: Val) -> bool {
-    any_upto(applicable(mt_of(defs, a), key), applicable(mt_of(defs, a), key).len() as int, v)
+    sel_mem(mt_of(defs, a), key, v)
 }
 pub open spec fn mt_of(defs: Defs, a: Atom) -> MappingAtomicType {
     match a {
